@@ -307,10 +307,13 @@ def main : IO Unit := do
     -- live the order the Go code gives them (and with it Find's first hit, Longest's tie-break, the
     -- order of branch file writes) is unspecified: the rest of that script is not compared.
     let fresh := op.startsWith "init"
-    let unstable := if fresh then false else (s.unstable || s1.repo.branches.length > 12)
+    -- a storage outage (`storefail`) is not modelled either: storage writes of the model cannot fail.
+    let outage := op.startsWith "storefail"
+    let unstable := if fresh then false else (s.unstable || s1.repo.branches.length > 12 || outage)
     let s' := { s1 with unstable := unstable }
     if unstable then
-      if !s.unstable then stdout.putStrLn "# unmodelled from here: more than 12 live branches (sort order unspecified)"
+      if !s.unstable then stdout.putStrLn (if outage then "# unmodelled from here: storage outage (writes fail)"
+        else "# unmodelled from here: more than 12 live branches (sort order unspecified)")
       let obs := match line.splitOn " => " with
         | _ :: rest => " => ".intercalate rest
         | [] => out
